@@ -7,7 +7,10 @@
  *    LR <zone> <src> <dst> <gw_src|-> <gw_dst|-> <latency> <n> <link>...   get_local_route() of one zone (private API)
  *    LX <zone> <src> <dst> <exception text>
  * The parent prints  BEGIN <id>  before and  END <id> <ok|exit:N|sig:N|spin|wall> cpu=<s>  after each child.
- * Watchdogs: the child arms a CPU-time timer (ITIMER_PROF): when it fires inside one query the child prints
+ * Watchdogs: the child arms a CPU-time timer (ITIMER_PROF) that is re-armed at the start of every build directive and of
+ * every query (the budget is per query: a platform may hold many zones and thousands of queries; engine start-up, build
+ * directives and sealing get 20x the budget of a route query, at least 20 s: they include the process warm-up, which is
+ * slow under ASan on a loaded machine); when it fires the child prints
  *    SPIN <what> cpu_in_query=<s>
  * and exits with status 3 (a CPU-time budget does not depend on the machine load); the parent has a wall-clock budget as a
  * last resort (reported as 'wall', which the python side treats as inconclusive).
@@ -19,6 +22,7 @@
 #include "src/kernel/resource/NetworkModel.hpp"
 #include "src/kernel/resource/StandardLinkImpl.hpp"
 
+#include <algorithm>
 #include <csignal>
 #include <cstdio>
 #include <cstring>
@@ -42,6 +46,8 @@ extern bool do_install_signal_handlers;
 
 static char g_query[512]    = "startup";
 static double g_query_start = 0;
+static struct itimerval g_budget;       // CPU budget of one route query
+static struct itimerval g_budget_build; // CPU budget of start-up, of one build directive, of sealing
 
 static double cpu_now()
 {
@@ -63,6 +69,8 @@ static void set_query(const char* kind, const std::string& a, const std::string&
 {
   snprintf(g_query, sizeof g_query, "%s %s %s %s", kind, a.c_str(), b.c_str(), c.c_str());
   g_query_start = cpu_now();
+  bool is_query = strcmp(kind, "R") == 0 || strcmp(kind, "LR") == 0;
+  setitimer(ITIMER_PROF, is_query ? &g_budget : &g_budget_build, nullptr); // re-arm: the budget is per query
 }
 
 static std::vector<std::string> split(const std::string& s, char sep = ' ')
@@ -303,11 +311,13 @@ static int child(const std::vector<std::string>& lines, double cpu_budget, int a
   memset(&sa, 0, sizeof sa);
   sa.sa_handler = on_prof;
   sigaction(SIGPROF, &sa, nullptr);
-  struct itimerval it;
-  memset(&it, 0, sizeof it);
-  it.it_value.tv_sec  = static_cast<long>(cpu_budget);
-  it.it_value.tv_usec = static_cast<long>((cpu_budget - static_cast<long>(cpu_budget)) * 1e6);
-  setitimer(ITIMER_PROF, &it, nullptr);
+  memset(&g_budget, 0, sizeof g_budget);
+  g_budget.it_value.tv_sec  = static_cast<long>(cpu_budget);
+  g_budget.it_value.tv_usec = static_cast<long>((cpu_budget - static_cast<long>(cpu_budget)) * 1e6);
+  double build_budget = std::max(20.0, 20 * cpu_budget);
+  memset(&g_budget_build, 0, sizeof g_budget_build);
+  g_budget_build.it_value.tv_sec = static_cast<long>(build_budget);
+  setitimer(ITIMER_PROF, &g_budget_build, nullptr);
 
   dup2(1, 2); // sanitizer reports and SimGrid's own messages stay next to the platform they belong to
   do_install_signal_handlers = false;
